@@ -80,6 +80,12 @@ def make_cube(rng, L, dim, with_nan):
     if dim == "time":
         da = xr.DataArray(data, dims=["time", "y", "x"], coords={"time": time, "y": [0, 1], "x": [10, 20, 30]}, attrs={"nodata": -1})
         axis = time.values
+    elif dim == "lag":  # integer labels centred on 0 (falsy label inside the axis)
+        axis = np.arange(L) - L // 2
+        da = xr.DataArray(data.transpose(1, 2, 0), dims=["y", "x", "lag"], coords={"lag": axis, "y": [0, 1], "x": [10, 20, 30]})
+    elif dim == "depth":  # float labels containing 0.0 and negatives
+        axis = (np.arange(L) - (L - 1) // 2) * 0.5
+        da = xr.DataArray(data.transpose(1, 2, 0), dims=["y", "x", "depth"], coords={"depth": axis, "y": [0, 1], "x": [10, 20, 30]})
     else:
         da = xr.DataArray(data.transpose(1, 2, 0), dims=["y", "x", "band"], coords={"band": np.arange(L) * 2.5 + 1.0, "y": [0, 1], "x": [10, 20, 30]})
         axis = np.arange(L) * 2.5 + 1.0
@@ -165,20 +171,22 @@ def shard_exhaustive(spec, R):
 
     rng = np.random.default_rng([spec["seed"], 19, 1, spec["L"]])
     L = spec["L"]
-    for dim, with_nan in (("time", False), ("time", True), ("band", False)):
+    for dim, with_nan in (("time", False), ("time", True), ("band", False), ("lag", False), ("depth", True)):
         da, data, axis = make_cube(rng, L, dim, with_nan)
         labels = [None] + list(range(L))
         for fname in ("sum", "mean", "full"):
-            if dim == "band" and fname == "mean":
+            if dim in ("band", "depth") and fname == "mean":
+                continue
+            if dim == "lag" and fname == "full":
                 continue
             for n in [None] + list(range(1, L + 2)):
                 for bi, ei in itertools.product(labels, labels):
                     if spec.get("stride") and (hash((n, bi, ei, fname, dim)) % spec["stride"]) != spec["phase"]:
                         continue
-                    begin = None if bi is None else (pd.Timestamp(axis[bi]) if dim == "time" else float(axis[bi]))
+                    begin = None if bi is None else (pd.Timestamp(axis[bi]) if dim == "time" else axis[bi].item())
                     if dim == "time" and begin is not None and (bi + (ei or 0)) % 2:
                         begin = str(begin)  # string labels as in the tests
-                    end = None if ei is None else (pd.Timestamp(axis[ei]) if dim == "time" else float(axis[ei]))
+                    end = None if ei is None else (pd.Timestamp(axis[ei]) if dim == "time" else axis[ei].item())
                     case = {"L": L, "n": n, "begin_ix": bi, "end_ix": ei, "fn": fname, "dim": dim, "nan": with_nan}
                     run_one(R, da, data, axis, dim, fname, n, begin, end, None, bi, ei, False, case, exhaustive=True)
                     R.count(f"exhaustive_L{L}")
@@ -192,7 +200,7 @@ def shard_offaxis(spec, R):
         if R.out_of_time():
             break
         L = int(rng.integers(1, 13))
-        dim = "time" if it % 4 else "band"
+        dim = ["band", "time", "time", "lag", "time", "depth"][it % 6]
         da, data, axis = make_cube(rng, L, dim, bool(it % 3 == 0))
         fname = ["sum", "mean", "full"][it % 3]
         n = int(rng.integers(1, L + 2))
@@ -203,7 +211,7 @@ def shard_offaxis(spec, R):
                 return None
             if kind == "on":
                 k = int(rng.integers(0, L))
-                return pd.Timestamp(axis[k]) if dim == "time" else float(axis[k])
+                return pd.Timestamp(axis[k]) if dim == "time" else axis[k].item()
             if kind == "between" and L >= 2:
                 k = int(rng.integers(0, L - 1))
                 return (pd.Timestamp(axis[k]) + pd.Timedelta(days=int(rng.choice([1, 2, 3, 7, 8, 9])))) if dim == "time" else float(axis[k] + rng.choice([0.4, 0.9, 1.6, 2.1]))
@@ -281,8 +289,8 @@ def replay(case, R):
     n = None if case["n"] is None else int(case["n"])
     if "begin_ix" in case:
         bi, ei = case["begin_ix"], case["end_ix"]
-        begin = None if bi is None else (pd.Timestamp(axis[bi]) if dim == "time" else float(axis[bi]))
-        end = None if ei is None else (pd.Timestamp(axis[ei]) if dim == "time" else float(axis[ei]))
+        begin = None if bi is None else (pd.Timestamp(axis[bi]) if dim == "time" else axis[bi].item())
+        end = None if ei is None else (pd.Timestamp(axis[ei]) if dim == "time" else axis[ei].item())
         run_one(R, da, data, axis, dim, case["fn"], n, begin, end, None, bi, ei, False, case)
     else:
         def parse(v):
